@@ -7,7 +7,7 @@ EXPLANATION = ('C03: the same aperture described by one global mask and by a par
                'interleave so that bounding boxes overlap or nest), through Pupil (x second masked Pupil) -> propagate_dft -> field and intensity.')
 BOUNDS = {
     'quick': 'pupil arrays <= 3x3 incl. non-square; supports of 2..5 cells; set partitions into 1..3 blocks (180 sampled + fixed); '
-             'one or two planes; oversample 1..2; shape n / n+1; prop_shape = shape / shape-1',
+             'one or two masked planes, optionally a Tilt before and a default / all-scalar / Tilt plane after them; oversample 1..2; shape n / n+1; prop_shape = shape / shape-1',
     'thorough': 'pupil arrays <= 4x4; supports of 2..6 cells; partitions into 1..4 blocks (1500 sampled + fixed)',
 }
 ASSUMPTIONS = ['wavelength, focal length, pixel scales > 0; amplitude/OPD arbitrary reals']
@@ -53,6 +53,12 @@ def configs(tier, seed):
             second = [[list(x) for x in b] for b in p2]
         out.append({'n': [nr, nc], 'blocks': [[list(x) for x in b] for b in part], 'second': second, 'os': os, 'shape': shape, 'prop': prop,
                     'omask': rng.random() < 0.35})
+        # planes without arrays around the aperture: a tilt picked up before it, and a default / all-scalar / tilt plane after it
+        # (tilt angles are fixed multiples of du/f, so the image displacement is a concrete number of samples)
+        if rng.random() < 0.3:
+            out[-1]['pre'] = rng.choice([[1, 0], [0, -1], ['1/2', '-3/4'], [-1, 1]])
+        if rng.random() < 0.45:
+            out[-1]['post'] = rng.choice(['default', 'scalar', 'scalar', ['tilt', 0, 1], ['tilt', '-1/2', '1/4'], ['tilt', 1, -1]])
     fixed = [
         # nested bounding boxes: block 0 surrounds block 1
         {'n': [3, 3], 'blocks': [[[0, 0], [2, 2], [0, 2], [2, 0]], [[1, 1]]], 'second': None, 'os': 2, 'shape': [3, 3], 'prop': [3, 3]},
@@ -61,6 +67,11 @@ def configs(tier, seed):
         # single-cell segments
         {'n': [2, 3], 'blocks': [[[0, 0]], [[1, 2]], [[0, 1]]], 'second': None, 'os': 2, 'shape': [2, 3], 'prop': [2, 3]},
         {'n': [3, 2], 'blocks': [[[0, 0], [1, 0]], [[2, 1], [1, 1]]], 'second': [[[0, 0], [1, 1]], [[2, 0], [2, 1], [1, 0]]], 'os': 1, 'shape': [3, 3], 'prop': [2, 2]},
+        # an off-centre aperture followed by planes that carry no arrays; tilts before and after a segmented aperture
+        {'n': [3, 3], 'blocks': [[[0, 2]], [[1, 2], [0, 1]]], 'second': None, 'os': 1, 'shape': [3, 3], 'prop': [3, 3], 'post': 'default'},
+        {'n': [2, 3], 'blocks': [[[0, 2], [1, 2]]], 'second': None, 'os': 2, 'shape': [3, 3], 'prop': [3, 3], 'post': 'scalar'},
+        {'n': [3, 3], 'blocks': [[[0, 0]], [[2, 2]], [[0, 2]]], 'second': None, 'os': 1, 'shape': [4, 4], 'prop': [4, 4], 'pre': [1, 0], 'post': ['tilt', 0, 1]},
+        {'n': [3, 2], 'blocks': [[[0, 0], [1, 1]], [[2, 1]]], 'second': [[[0, 0], [2, 1]], [[1, 1]]], 'os': 1, 'shape': [3, 3], 'prop': [3, 3], 'pre': ['1/2', '-3/4'], 'post': ['tilt', 1, -1]},
         # one segment given as a one-layer cube
         {'n': [3, 3], 'blocks': [[[0, 1], [1, 1], [1, 2]]], 'second': None, 'os': 1, 'shape': [3, 3], 'prop': [3, 3]},
         {'n': [2, 3], 'blocks': [[[0, 0], [1, 2]]], 'second': [[[0, 0], [0, 1], [1, 2]]], 'os': 2, 'shape': [3, 3], 'prop': [2, 3]},
@@ -112,11 +123,28 @@ def run(W, cfg):
         second['seg'] = lt.Pupil(amplitude=A2, opd=O2, mask=(st2.copy() if len(cfg['second']) > 1 else st2[0].copy()), pixelscale=dx, focal_length=f)
         second['whole'] = second['mono']
         second['cube'] = lt.Pupil(amplitude=A2, opd=O2, mask=(st2.copy() if len(cfg['second']) > 1 else st2[:1].copy()), pixelscale=dx, focal_length=f)
+    from fractions import Fraction as _Fr
+
+    def _tilt(c):
+        cx, cy = (W.const(_Fr(str(v))) for v in c)
+        return lt.Tilt(x=cx * du[0] / f, y=cy * du[1] / f)
+    post = cfg.get('post')
+    if post == 'scalar':
+        sa, so = W.real('sa'), W.real('so')
     res = {}
     for name, plane in variants.items():
-        w = lt.Wavefront(lam) * plane
+        w = lt.Wavefront(lam)
+        if cfg.get('pre'):
+            w = w * _tilt(cfg['pre'])
+        w = w * plane
         if second:
             w = w * second[name]
+        if post == 'default':
+            w = w * lt.Pupil(focal_length=f)
+        elif post == 'scalar':
+            w = w * lt.Pupil(amplitude=sa, opd=so, focal_length=f, pixelscale=dx)
+        elif post:
+            w = w * _tilt(post[1:])
         omask = None
         if cfg.get('omask'):
             S0 = (cfg['shape'][0] * cfg['os'], cfg['shape'][1] * cfg['os'])
@@ -140,7 +168,7 @@ def run(W, cfg):
     W.ob('intensity seg coherent', res['seg'][1], W.array([[W.abs2(fs[i, j]) for j in range(S[1])] for i in range(S[0])]))
     # and against the defining sum (ties the common value to C02's reference)
     sup = [tuple(x) for b in cfg['blocks'] for x in b]
-    if not cfg['second'] and not cfg.get('omask'):
+    if not cfg['second'] and not cfg.get('omask') and not cfg.get('pre') and not cfg.get('post'):
         wr = optics.centre_window(S[0], cfg['prop'][0] * cfg['os'])
         wc = optics.centre_window(S[1], cfg['prop'][1] * cfg['os'])
         samples = [((r, c), optics.phasor(W, A[r, c], O[r, c], lam)) for r, c in sup]
